@@ -16,6 +16,7 @@ import (
 
 	"github.com/couchbase/gocbcore/v10"
 	"github.com/google/uuid"
+	csmap "github.com/mhmtszr/concurrent-swiss-map"
 	"github.com/sirupsen/logrus"
 
 	"github.com/Trendyol/go-dcp/logger"
@@ -97,6 +98,7 @@ func TestRun(t *testing.T) {
 		w.wake = make(chan struct{}, 1) // channels must be created inside the bubble
 		w.cfg = defaultCfg(prop, tier)
 		w.jl(&journal.Ev{K: journal.KRun, Vb: -1, S: prop, S2: tier, I: seed})
+		csmap.VerifSalt = uint64(w.tape.Draw(1<<16, nil)) // iteration order of the library's concurrent maps
 		w.scn.Configure(w)
 		cj, _ := json.Marshal(w.cfg)
 		w.jl(&journal.Ev{K: "cfg", Vb: -1, Raw: cj})
